@@ -81,6 +81,9 @@ async function next_record(it, stream, what) {
     }
     p = Promise.resolve(p).then((r) => { state.settled = true; state.rec = r; }, (e) => { state.settled = true; state.err = e; });
     if (!stream) { await p; return state; }
+    // a record that is already queued is taken at once (microtasks only), as a real consumer does: the consumer can then run far ahead of the producer
+    for (let k = 0; k < 3 && !state.settled; k++) await null;
+    if (state.settled) return state;
     let idle_after_end = 0;
     let total_turns = 0;
     while (!state.settled) {
